@@ -120,7 +120,7 @@ impl<'h> FindMatchesImpl<'h> {
         let mut matches = Vec::with_capacity(n);
         let mut mode_switch = false;
         let mut new_mode = 0;
-        for _ in 0..n {
+        while matches.len() < n {
             let result = self
                 .scanner_impl
                 .peek_from(self.haystack(), char_indices.clone());
@@ -134,7 +134,9 @@ impl<'h> FindMatchesImpl<'h> {
                     new_mode = mode;
                     break;
                 }
-            } else {
+            } else if char_indices.next().is_none() {
+                // Nothing matches here: skip one character like `next_match` does, until the
+                // haystack is exhausted.
                 break;
             }
         }
